@@ -941,7 +941,7 @@ func C11(ctx *core.Ctx) error {
 	// ---- real-size verdicts and vacuity
 	type famStat struct {
 		Cases, Rejected, Exact, Hit, NoProof, NotJudged int
-		Failing                                        map[string]int
+		Failing                                         map[string]int
 	}
 	fam := map[string]*famStat{}
 	for _, r := range results {
